@@ -939,7 +939,10 @@ fn gen_c17(rng: &mut Rng, ctx: &mut Ctx, rep: &mut Report, emit: Emit) {
     }
     for _ in 0..ctx.n(20_000, 1_000_000) {
         let t = match rng.below(4) { 0 => rng.below(252_455_616_000_000), 1 => rng.below(4_102_444_800_000), _ => rng.u64b() };
-        match rng.below(4) { 0 => emit(ctx, rep, format!("time.unix {}", t)), 1 | 2 => emit(ctx, rep, format!("time.string {}", t)), _ => emit(ctx, rep, format!("ts.string {} {}", t, rng.u64b())) }
+        match rng.below(4) { 0 => emit(ctx, rep, format!("time.unix {}", t)),
+            // neighbours in the same second / the same value again, back to back (anything remembered between calls shows)
+            1 | 2 => { emit(ctx, rep, format!("time.string {}", t)); if rng.chance(1, 3) { emit(ctx, rep, format!("time.string {}", t ^ 1)); emit(ctx, rep, format!("time.string {}", t)); } }
+            _ => emit(ctx, rep, format!("ts.string {} {}", t, rng.u64b())) }
     }
     for _ in 0..ctx.n(500, 10_000) { let c = MS2K + rng.u64b() / 2; emit(ctx, rep, format!("time.now {}", c)); }
 }
